@@ -17,19 +17,24 @@ Inductive term := Node (l : label) (ks : list term).
 Definition tlabel (t : term) : label := match t with Node l _ => l end.
 Definition tkids (t : term) : list term := match t with Node _ ks => ks end.
 
+(* kinds, as written by the serializer *)
+Definition K (k : string) (d : string) : label := L k d.
+Definition is_kind (k : string) (l : label) : bool := String.eqb (lk l) k.
+
 Definition label_eqb (a b : label) : bool :=
   String.eqb (lk a) (lk b) && String.eqb (ld a) (ld b).
 
+Definition all2_with {A : Type} (f : A -> A -> bool) : list A -> list A -> bool :=
+  fix go (xs ys : list A) {struct xs} : bool :=
+    match xs, ys with
+    | [], [] => true
+    | x :: xs', y :: ys' => f x y && go xs' ys'
+    | _, _ => false
+    end.
+
 Fixpoint term_eqb (a b : term) {struct a} : bool :=
   match a, b with
-  | Node la ka, Node lb kb =>
-      label_eqb la lb &&
-      (fix go (xs ys : list term) {struct xs} : bool :=
-         match xs, ys with
-         | [], [] => true
-         | x :: xs', y :: ys' => term_eqb x y && go xs' ys'
-         | _, _ => false
-         end) ka kb
+  | Node la ka, Node lb kb => label_eqb la lb && all2_with term_eqb ka kb
   end.
 
 Fixpoint tsize (t : term) : nat :=
@@ -38,9 +43,6 @@ Fixpoint tsize (t : term) : nat :=
                        match xs with [] => 0 | x :: xs' => tsize x + go xs' end) ks)
   end.
 
-(* kinds, as written by the serializer *)
-Definition K (k : string) (d : string) : label := L k d.
-Definition is_kind (k : string) (l : label) : bool := String.eqb (lk l) k.
 
 (* The reserved parameter prefix "_ŠČ" = 5F C5 A0 C4 8C (UTF-8 bytes). *)
 Definition param_prefix : string :=
@@ -54,8 +56,8 @@ Definition is_param_ident (s : string) : bool := String.prefix param_prefix s.
 Definition path_param (p : term) : option string :=
   match p with
   | Node lp [Node ls [Node la []]] =>
-      if is_kind "Path" lp && String.eqb (ld lp) "" &&
-         is_kind "Seg" ls && is_kind "ANone" la && is_param_ident (ld ls)
+      if label_eqb lp (K "Path" "") && is_kind "Seg" ls && label_eqb la (K "ANone" "") &&
+         is_param_ident (ld ls)
       then Some (ld ls) else None
   | _ => None
   end.
@@ -66,14 +68,14 @@ Definition path_param (p : term) : option string :=
 Definition ty_param (t : term) : option string :=
   match t with
   | Node l [Node lq []; p] =>
-      if is_kind "TPath" l && is_kind "ONone" lq then path_param p else None
+      if label_eqb l (K "TPath" "") && label_eqb lq (K "ONone" "") then path_param p else None
   | _ => None
   end.
 
 Definition ex_param (t : term) : option string :=
   match t with
   | Node l [Node lq []; p] =>
-      if is_kind "EPath" l && is_kind "ONone" lq then path_param p else None
+      if label_eqb l (K "EPath" "") && label_eqb lq (K "ONone" "") then path_param p else None
   | _ => None
   end.
 
@@ -94,3 +96,4 @@ Definition is_expr_kind (l : label) : bool :=
 (* transparent wrappers (DESIGN 9: the congruence [equiv]) *)
 Definition is_ty_wrap (l : label) : bool := is_kind "TParen" l || is_kind "TGroup" l.
 Definition is_ex_group (l : label) : bool := is_kind "EGroup" l.
+Definition is_wrap (l : label) : bool := is_ty_wrap l || is_ex_group l.
